@@ -270,6 +270,8 @@ impl LogStore for FileLogStore {
                 inner.entries.insert(entry.index, entry.clone());
                 inner.index_end_pos.insert(entry.index, end_pos);
                 max_index = max_index.max(entry.index);
+                #[cfg(feature = "verif-hooks")]
+                crate::verif_exports::crash_point("log:persist:after_entry");
             }
             inner.file.flush()?;
         }
@@ -308,6 +310,8 @@ impl LogStore for FileLogStore {
 
         // Rewrite file with only kept entries, flush once.
         inner.file.set_len(0)?;
+        #[cfg(feature = "verif-hooks")]
+        crate::verif_exports::crash_point("log:purge:after_truncate");
         inner.file.seek(SeekFrom::Start(0))?;
         inner.index_end_pos.clear();
 
@@ -315,6 +319,8 @@ impl LogStore for FileLogStore {
             let enc = entry.encode_to_vec();
             let end_pos = inner.write_encoded(&enc)?;
             inner.index_end_pos.insert(entry.index, end_pos);
+            #[cfg(feature = "verif-hooks")]
+            crate::verif_exports::crash_point("log:purge:after_rewrite_entry");
         }
         inner.file.flush()?;
         inner.file.sync_all()?;
@@ -333,6 +339,8 @@ impl LogStore for FileLogStore {
         // Compute truncation point from end_pos index — no file read required.
         let truncate_to = inner.end_pos_before(from_index);
         inner.file.set_len(truncate_to)?;
+        #[cfg(feature = "verif-hooks")]
+        crate::verif_exports::crash_point("log:truncate:after_set_len");
 
         inner.remove_from_index(from_index);
 
@@ -359,6 +367,8 @@ impl LogStore for FileLogStore {
             // Truncate file to the end of the last kept entry.
             let truncate_to = inner.end_pos_before(from_index);
             inner.file.set_len(truncate_to)?;
+            #[cfg(feature = "verif-hooks")]
+            crate::verif_exports::crash_point("log:replace:after_set_len");
 
             // Remove in-memory state for truncated range.
             inner.remove_from_index(from_index);
@@ -368,6 +378,8 @@ impl LogStore for FileLogStore {
                 let end_pos = inner.write_encoded(enc)?;
                 inner.entries.insert(entry.index, entry.clone());
                 inner.index_end_pos.insert(entry.index, end_pos);
+                #[cfg(feature = "verif-hooks")]
+                crate::verif_exports::crash_point("log:replace:after_entry");
             }
 
             if !new_entries.is_empty() {
@@ -471,7 +483,11 @@ impl FileMetaStore {
         if key == HARD_STATE_KEY {
             let hard_state_path = self.data_dir.join(HARD_STATE_FILE_NAME);
             let mut file = File::create(hard_state_path)?;
+            #[cfg(feature = "verif-hooks")]
+            crate::verif_exports::crash_point("meta:after_create");
             file.write_all(value)?;
+            #[cfg(feature = "verif-hooks")]
+            crate::verif_exports::crash_point("meta:after_write");
             file.flush()?;
         }
 
